@@ -203,3 +203,24 @@ func vh_udp_write() {
 	vassert(pk.Local == vhLocal && pk.Remote == vhRemote, "addressed from the socket's address to its peer")
 	vreach("written")
 }
+
+// C07: arbitrary bytes handed to the UDP endpoint (first view >= 8 bytes, as the NIC guarantees)
+func vh_udp_arbitrary() {
+	u := vhEP(64)
+	n := 8 + vnChoice("extra", 4)
+	b := vnBytes("dgram", n)
+	var vv buffer.VectorisedView
+	if n > 9 && vnBool("split") {
+		vv = buffer.NewVectorisedView(n, []buffer.View{buffer.View(b[:9]), buffer.View(b[9:])})
+	} else {
+		vv = buffer.View(b).ToVectorisedView()
+	}
+	id := stack.TransportEndpointID{LocalPort: 53, LocalAddress: vhLocal, RemotePort: 1, RemoteAddress: vhRemote}
+	u.e.HandlePacket(&u.r, id, vv)
+	sum := 0
+	for p := u.e.rcvList.Front(); p != nil; p = p.Next() {
+		sum += p.data.Size()
+	}
+	vassert(sum == u.e.rcvBufSize, "buffer accounting matches the queue after any input")
+	vreach("udp")
+}
